@@ -21,6 +21,7 @@ under a read-held mutex of an object that has a writer (reader re-entrancy), and
 -/
 import Uniflow.Model.LockSem
 import Uniflow.Model.Lockset
+import Uniflow.Generated.MapBuckets
 
 open Uniflow.LockSem
 
@@ -454,3 +455,23 @@ theorem C20.sync_ops_nonvacuous :
     condOps.any (fun o => o.typ == "process.Process" && o.meth == "Fork" && (o.op == "Broadcast" || o.op == "Signal")) = true ∧
     syncOps.any (fun o => o.kind == "sync.Map" && o.op == "Store") = true ∧
     syncOps.any (fun o => o.kind == "atomic.Uint32") = true := by decide
+
+/-! ## Part 4: structural sharing of map buckets -/
+
+open Uniflow.Generated.MapBuckets in
+/-- **Map buckets are copied on write.** A map derived from an immutable map shares the backing
+arrays of its buckets with it (`immutableMap.mutable()` copies only the outer Go map), and the
+immutable map is read by any number of goroutines without a lock. So no method of the map types
+may write into a bucket: every `m.value[hash] = …` stores a freshly allocated slice (`make`,
+a composite literal, or `append(x[:i:i], …)`), and there is no `b[i] = v`, `copy(b, …)`,
+`append(b, …)` or `slices.Insert/Delete/…(b, …)` on a bucket `b`. (`slices.Insert(bucket, …)`
+re-allocates only when len+1 > cap – seeded change c20f; `bucket[mid][1] = val` was defect #1.) -/
+theorem C20.map_buckets_copied_on_write :
+    bucketAssigns.all (fun a => a.2.2.2 == "fresh") = true ∧ bucketInPlace = [] := by decide
+
+open Uniflow.Generated.MapBuckets in
+/-- Non-vacuity: the table sees both map types and the three bucket stores of `Set` and `Delete`. -/
+theorem C20.map_buckets_copied_on_write_nonvacuous :
+    mapTypesWithBuckets = 2 ∧
+    bucketAssigns.any (fun a => a.1 == "types.mutableMap" && a.2.1 == "Set") = true ∧
+    bucketAssigns.any (fun a => a.1 == "types.mutableMap" && a.2.1 == "Delete") = true := by decide
